@@ -817,6 +817,13 @@ func (in *Interp) binop(op token.Token, a, b Val, rt, ot types.Type) Val {
 			return bvArith("rem", x, y)
 		case token.EQL, token.NEQ:
 			e := bvEq(x, y)
+			if in.TermEq && x.W > 8 && !isConst(e) {
+				ta, tb := x.Term(), y.Term()
+				if ta.id > tb.id {
+					ta, tb = tb, ta
+				}
+				e = termBV(mkTerm("eq", 1, ta, tb), 1, false).Bits[0]
+			}
 			if in.WrapEq && x.W > 4 {
 				e = wrapDef(e)
 			}
